@@ -1369,7 +1369,6 @@ func reservedWordsAreTheFormats(c *core.Ctx, p *load.Prog) {
 	}
 }
 
-
 // loopsOnBufferFull: the call sits in a for loop of fd whose body compares an
 // error with bufio.ErrBufferFull.
 func loopsOnBufferFull(info *types.Info, fd *ast.FuncDecl, call *ast.CallExpr) bool {
